@@ -10,7 +10,7 @@ REQUIRED_THEOREMS = ['Props.C16.im2col_variants_agree', 'Props.C16.col2im_varian
                      'Props.C16.fold_unfold_coverage']
 RULE = ('large inputs (more than 2^20 column entries, batch 3..11) on the implementation side: the three variants against the window definition (torch unfold) and the adjoint identity; a few geometries with one axis of extent 253..300 (where narrow index types would wrap); geometry grid: N, C in 1..2, H, W in 1..6, kernel 1..3, stride 1..3, dilation 1..2, padding 0..d(k-1)/2+1 per axis independently '
         '(non-square, stride > kernel, windows that do not tile), int and tuple kernel sizes, both layouts (N x CkHkW x L and the 2-D '
-        'column matrix), arbitrary pad values, integer-valued data so equality is exact; four in ten calls are the second call on the same array object after it was overwritten in place (a re-used buffer); every input array is handed over in one of the memory layouts C, Fortran, strided view, negative-stride view, window into a larger buffer; each of the three im2col and three col2im '
+        'column matrix), arbitrary pad values, integer-valued data so equality is exact; half of the calls of the index-based variants use an index triple obtained with return_indices=True that has already been through col2im and im2col (col_indices=); four in ten calls are the second call on the same array object after it was overwritten in place (a re-used buffer); every input array is handed over in one of the memory layouts C, Fortran, strided view, negative-stride view, window into a larger buffer; each of the three im2col and three col2im '
         'implementations and extract/place_windows is compared with its own model definition, ~8 % geometries without a window '
         '(must raise). Extra implementation-side checks: the three variants agree bit for bit, <im2col x, y> = <x, col2im y>, '
         'fold(unfold(ones)) = coverage counts. Non-trivial: at least 2 windows and an overlapping or dilated geometry.')
@@ -119,7 +119,8 @@ def cases(rng, tier):
     for c in out:
         c['layout'] = rng.pick(LAYOUTS)
         c['reuse'] = rng.chance(.4)
-        c['desc'] = f"layout={c['layout']} reuse={int(c['reuse'])} " + c['lines'][0][:400]
+        c['share_idx'] = rng.chance(.5) and not c.get('malformed')
+        c['desc'] = f"layout={c['layout']} reuse={int(c['reuse'])} share_idx={int(c['share_idx'])} " + c['lines'][0][:400]
     return out
 
 
@@ -178,13 +179,31 @@ def _run(c):
         if first is not None and not np.array_equal(first, np.array(call(lay(np.ascontiguousarray(2 * real + 1), L)))):
             raise AssertionError('the answer for the first contents changed')      # cannot happen unless results alias a cache
         return second
+    def shared_indices():
+        """the documented way to amortise the index computation of the index-based variants: ask the first call for its index
+        triple (`return_indices=True`) and hand the same triple to every later im2col / col2im call (`col_indices=`). The triple
+        is the caller's: after going through both directions it must still hold the same numbers"""
+        probe = np.arange(int(np.prod(shape)), dtype=np.float64).reshape(shape)
+        cols, idx = ct.im2col(probe, k, d, s, p, 0.0, return_indices=True, as_unfold=True)
+        snap = [np.array(a) for a in idx]
+        ct.col2im(cols, shape, k, d, s, p, col_indices=idx)
+        ct.im2col(probe, k, d, s, p, 0.0, col_indices=idx, as_unfold=False)
+        if not all(np.array_equal(a, b) for a, b in zip(idx, snap)):
+            raise AssertionError('the index triple handed to col2im / im2col was modified')
+        return idx
     if c['fn'] == 'im2col':
         x = lay(np.array(c['x']).reshape(shape), L)
         f = {'idx': ct.im2col, 'loop': ct.im2col_v2, 'view': ct.im2col_fast}[c['variant']]
+        if c['variant'] == 'idx' and c.get('share_idx'):
+            idx = shared_indices()
+            return twice(lambda a: f(a, k, d, s, p, c['pad'], col_indices=idx, as_unfold=c['unf']), x)
         return twice(lambda a: f(a, k, d, s, p, c['pad'], as_unfold=c['unf']), x)
     if c['fn'] == 'col2im':
         y = lay(np.array(c['y']).reshape(c['csh']), L)
         f = {'idx': ct.col2im, 'loop': ct.col2im_v2, 'view': ct.col2im_fast}[c['variant']]
+        if c['variant'] == 'idx' and c.get('share_idx'):
+            idx = shared_indices()
+            return twice(lambda a: f(a, shape, k, d, s, p, col_indices=idx), y)
         return twice(lambda a: f(a, shape, k, d, s, p), y)
     if c['fn'] == 'extract':
         return twice(lambda a: ct.extract_windows(a, g['k'], g['s'], g['p'], g['d'], c['pad']), lay(np.array(c['x']).reshape(shape), L))
